@@ -1,18 +1,290 @@
 /-
-Props/C15.lean — property C15 (preload transparency).  (under construction: full clause list follows)
+Props/C15.lean — property C15: preloaded and cached intermediate results never change inversion
+outputs.
+
+The statements are about `Model.Preload.Impl` — the heap machine that transliterates which preload
+slot short-circuits which computation and which numpy arrays are aliased, copied or written in place
+(Model/Preload.lean) — under `Policy.repaired`, i.e. the code with the two C15 repairs (fixes/D151,
+fixes/D152).  They hold for every element type `α` with an addition and a zero, every `Cfg` (object mix,
+regularizations, settings), every choice of the numerical kernels `Ext`, every `Preloads` object (each of
+the eleven slots filled or empty: all 2¹¹ configurations), every heap, every history (any number of
+inversions, each with any sequence of reads).
+
+Clauses (DESIGN §5 C15):
+  r   `impl_refines_spec`                     what every read returns (refinement Impl = Spec)
+  a   `slot_transparency`, `slot_transparency_values`
+  b   `history_preloads_unchanged`, `history_outputs_identical`, `outputs_independent_of_history`
+  b'  `no_defensive_copy_breaks`, `snapshot_writes_into_preloaded_arrays`,
+      `snapshot_mapping_data_vector_wrong`   (the model sees the failures the property is about)
+  c   `factory_respects_settings`, `formalisms_agree_on_all_outputs`, `formalism_choice_no_value`,
+      `preloads_and_formalism_transparent`
+
+NOT proved here (see design_notes/C15.md): that the Python really aliases / copies as the heap machine
+says (observed per run by byte fingerprints, DESIGN §4), and the equalities between the numerical
+routes (`Routes`, `FormalismsAgree`: property C04), which are hypotheses.
 -/
 import Model.Preload
 import Proofs.Preload
 
-open Model Model.Preload
+open Model Model.Preload Model.Preload.Heap
 
 namespace C15
 
-/-- (c0) the factory never selects the w-tilde formalism when the settings switch it off or when every
-    linear object is a func list, whatever `Preloads.use_w_tilde` says. -/
-theorem factory_respects_settings {α : Type} (c : Cfg α) (pu : Option Bool)
-    (h : c.settingsUseWTilde = false ∨ c.allFuncLists = true) : useWTilde c pu = false := by
-  unfold useWTilde
-  rcases h with h | h <;> simp [h]
+variable {α : Type} [Add α] [OfNat α 0]
+
+/-- (r) Refinement.  A history of inversions sharing one `Preloads` object `p`, started in any heap in
+    which `p`'s arrays live, reports exactly the Spec values of `p`'s *initial* contents: the k-th
+    inversion's reads are `Spec.inversion` of those contents, whatever was read before. -/
+theorem impl_refines_spec (c : Cfg α) (E : Ext α) (p : Preloads α) (h : Heap α)
+    (hp : p.Below h.size) (hist : List (List Access)) :
+    (Impl.history c E Policy.repaired p hist h).2 = hist.map (Spec.inversion c E (contents h p)) :=
+  (history_spec c E p hist h hp).2
+
+/-- (b1) No inversion of any history changes any array that existed before it — in particular the
+    preloaded curvature matrix and every other preloaded array keep their contents. -/
+theorem history_preloads_unchanged (c : Cfg α) (E : Ext α) (p : Preloads α) (h : Heap α)
+    (hp : p.Below h.size) (hist : List (List Access)) :
+    (∀ r, r < h.size → (Impl.history c E Policy.repaired p hist h).1.read r = h.read r)
+    ∧ contents (Impl.history c E Policy.repaired p hist h).1 p = contents h p := by
+  have hx := (history_spec c E p hist h hp).1
+  exact ⟨hx.2, contents_ext hx hp⟩
+
+/-- (b2) k successive inversions with the same reads give the identical outcome every time: each of
+    the k results equals the result of a single inversion on the initial heap. -/
+theorem history_outputs_identical (c : Cfg α) (E : Ext α) (p : Preloads α) (h : Heap α)
+    (hp : p.Below h.size) (accs : List Access) (k : Nat) :
+    (Impl.history c E Policy.repaired p (List.replicate k accs) h).2
+      = List.replicate k (Impl.inversion c E Policy.repaired p accs h).2 := by
+  rw [impl_refines_spec c E p h hp, (inversion_spec c E p accs h hp).2]
+  simp
+
+/-- (b3) What an inversion reports does not depend on the inversions that used the `Preloads` object
+    before it. -/
+theorem outputs_independent_of_history (c : Cfg α) (E : Ext α) (p : Preloads α) (h : Heap α)
+    (hp : p.Below h.size) (before : List (List Access)) (accs : List Access) :
+    (Impl.inversion c E Policy.repaired p accs
+        (Impl.history c E Policy.repaired p before h).1).2
+      = (Impl.inversion c E Policy.repaired p accs h).2 := by
+  have hx := (history_spec c E p before h hp).1
+  rw [(inversion_spec c E p accs _ (hp.mono hx.1)).2, (inversion_spec c E p accs h hp).2,
+    contents_ext hx hp]
+
+/-- (a, values) If every filled slot holds what the preload-free computation would produce, every
+    reported quantity — operated mapping matrix, data vector, curvature, regularization and
+    curvature-regularization matrices, reconstruction, mapped data, the three evidence terms — equals
+    its preload-free value.  `s` is arbitrary: every subset of slots.  `Routes` = the alternative
+    computation routes behind `data_linear_func_matrix_dict` / `mapper_operated_mapping_matrix_dict`
+    / the mapper data vector agree (C04). -/
+theorem slot_transparency_values (c : Cfg α) (E : Ext α) (w : Bool) (s : Slots α)
+    (hs : Consistent c E w s) (hr : Routes c E) (a : Access) :
+    Spec.output c E w s a = Spec.output c E w {} a :=
+  tr_output hs hr a
+
+/-- (a) Slot transparency of the code: a history run with consistent preloads reports, inversion by
+    inversion and read by read, what the same history reports with no array preloaded (same
+    `use_w_tilde` flag, hence same formalism). -/
+theorem slot_transparency (c : Cfg α) (E : Ext α) (p : Preloads α) (h : Heap α)
+    (hp : p.Below h.size)
+    (hs : Consistent c E (useWTilde c p.useWTilde) (contents h p)) (hr : Routes c E)
+    (hist : List (List Access)) :
+    (Impl.history c E Policy.repaired p hist h).2
+      = (Impl.history c E Policy.repaired { useWTilde := p.useWTilde } hist h).2 := by
+  rw [impl_refines_spec c E p h hp, impl_refines_spec c E _ h (belowEmpty _ _), contentsEmpty]
+  apply List.map_congr_left
+  intro accs _
+  exact tr_inversion hs hr accs
+
+omit [Add α] [OfNat α 0] in
+/-- (c0) The factory never selects the w-tilde formalism when the settings switch it off or when
+    every linear object is a func list, whatever `Preloads.use_w_tilde` says; otherwise the preload
+    flag, when given, overrides the setting. -/
+theorem factory_respects_settings (c : Cfg α) (pu : Option Bool) :
+    (c.settingsUseWTilde = false ∨ c.allFuncLists = true → useWTilde c pu = false)
+    ∧ (c.settingsUseWTilde = true → c.allFuncLists = false →
+        useWTilde c pu = pu.getD true) := by
+  constructor
+  · intro h
+    unfold useWTilde
+    rcases h with h | h <;> simp [h]
+  · intro h1 h2
+    unfold useWTilde
+    cases pu <;> simp [h1, h2]
+
+/-- (c1) If the two formalisms agree on the data vector, the curvature matrix and the mapping of a
+    reconstruction back to the data (property C04), they agree on every reported quantity. -/
+theorem formalisms_agree_on_all_outputs (c : Cfg α) (E : Ext α) (hA : FormalismsAgree c E)
+    (a : Access) : Spec.output c E true {} a = Spec.output c E false {} a :=
+  fa_output hA a
+
+/-- (c2) The factory's choice changes no value: whatever `settings.use_w_tilde` is, a preload-free
+    inversion reports the values of the mapping formalism. -/
+theorem formalism_choice_no_value (c : Cfg α) (E : Ext α) (hA : FormalismsAgree c E) (b : Bool)
+    (accs : List Access) :
+    Spec.inversion { c with settingsUseWTilde := b } E {} accs
+      = some (accs.map (Spec.output c E false {})) := by
+  unfold Spec.inversion
+  simp only [wt_empty, hA.check, Bool.not_true, Bool.and_false, Bool.false_eq_true, ↓reduceIte]
+  congr 1
+  apply List.map_congr_left
+  intro a _
+  rw [output_settings_irrelevant]
+  cases useWTilde { c with settingsUseWTilde := b } (none : Option Bool)
+  · rfl
+  · exact fa_output hA a
+
+/-- (a + c) Preloads and formalism together: with consistent slots — consistent for the formalism the
+    factory actually runs — a history reports what it reports with NO Preloads at all, even when
+    `Preloads.use_w_tilde` makes the factory pick the other formalism. -/
+theorem preloads_and_formalism_transparent (c : Cfg α) (E : Ext α) (p : Preloads α) (h : Heap α)
+    (hp : p.Below h.size)
+    (hs : Consistent c E (useWTilde c p.useWTilde) (contents h p)) (hr : Routes c E)
+    (hA : FormalismsAgree c E) (hist : List (List Access)) :
+    (Impl.history c E Policy.repaired p hist h).2
+      = (Impl.history c E Policy.repaired {} hist h).2 := by
+  rw [impl_refines_spec c E p h hp, impl_refines_spec c E _ h (belowEmpty _ _), contentsEmpty]
+  apply List.map_congr_left
+  intro accs _
+  rw [tr_inversion hs hr accs]
+  exact fa_inversion hA _ accs
+
+/-! ### witnesses: the model exhibits the failures the property is about -/
+
+/-- toy kernels over `Int` (any functions would do; these keep the arrays recognisable) -/
+def toyExt : Ext Int where
+  lfCompute := [1]
+  momdCompute := [2]
+  dlfOfLf := fun l => l.map (· + 10)
+  ommPlain := [3, 4]
+  ommOfLf := fun l => l ++ [3, 4]
+  dvOfOmm := fun o => o.map (· * 2)
+  curvOfOmm := fun o => o.map (· * 3)
+  mappedMapping := fun _ s => s.map (· + 1)
+  dvmMapping := [6, 0]
+  wtCompute := [5]
+  wtCheck := fun w => w == [5]
+  dvW := [6, 0]
+  dvFuncEntries := fun _ => [(1, 8)]
+  diagOfWT := fun w => w ++ w
+  offDiagWrites := fun _ => []
+  funcOffViaDlf := fun _ => [(1, 9)]
+  funcOffViaMomd := fun _ _ => [(1, 9)]
+  funcOffDefault := fun _ => [(1, 9)]
+  funcDiagWrites := fun _ => []
+  mirror := fun b => b
+  mappedW := fun _ s => s.map (· + 1)
+  regCompute := [1, 1]
+  reduce := fun m => m
+  reduceVec := fun v => v
+  logDetReg := fun m => m.sum
+  solve := fun f d => List.zipWith (· - ·) d f
+  regTerm := fun m s => (List.zipWith (· * ·) m s).sum
+  logDetCurvReg := fun m => m.sum
+
+/-- one mapper with a regularization, mapping formalism -/
+def toyCfg : Cfg Int :=
+  { settingsUseWTilde := false, allFuncLists := false, hasFuncList := false, nMappers := 1,
+    nObjs := 1, hasReg := true, allReg := true, funcOverride := false, noRegIdx := [],
+    diagValue := 0, dim := 2 }
+
+/-- mapper + func list (no regularization on the func list) -/
+def toyCfgFunc (w : Bool) : Cfg Int :=
+  { settingsUseWTilde := w, allFuncLists := false, hasFuncList := true, nMappers := 1,
+    nObjs := 2, hasReg := true, allReg := false, funcOverride := false, noRegIdx := [1],
+    diagValue := 1, dim := 1 }
+
+/-- (b') Without the defensive `copy.copy(preloads.curvature_matrix)` the invariant fails: on the
+    single-regularization path the second inversion finds F+H where it expects F — the preloaded
+    buffer is changed and the two outcomes differ. -/
+theorem no_defensive_copy_breaks :
+    let p : Preloads Int := { curvatureMatrix := some 0 }
+    let h : Heap Int := ⟨[[9, 12]]⟩
+    let run := Impl.history toyCfg toyExt Policy.noCurvatureCopy p
+      [[Access.curvatureRegMatrix], [Access.curvatureRegMatrix]] h
+    p.Below h.size
+    ∧ run.1.read 0 = [11, 14] ∧ h.read 0 = [9, 12]
+    ∧ run.2 = [some [[10, 13]], some [[11, 14]]]
+    ∧ (Impl.history toyCfg toyExt Policy.repaired p
+        [[Access.curvatureRegMatrix], [Access.curvatureRegMatrix]] h).2
+        = [some [[10, 13]], some [[10, 13]]] := by
+  decide
+
+/-- (b'') The code as first read (`Policy.snapshot`, before repair D152): in the w-tilde formalism
+    with a linear func list the func-list entries are written INTO the preloaded
+    `data_vector_mapper`, and the func-list blocks into the preloaded `curvature_matrix_mapper_diag`;
+    the repaired code leaves both alone. -/
+theorem snapshot_writes_into_preloaded_arrays :
+    let p : Preloads Int := { dataVectorMapper := some 0, curvatureMatrixMapperDiag := some 1 }
+    let h : Heap Int := ⟨[[6, 0], [5, 0, 0, 5]]⟩
+    let reads := [[Access.dataVector, Access.curvatureMatrix]]
+    p.Below h.size
+    ∧ (Impl.history (toyCfgFunc true) toyExt Policy.snapshot p reads h).1.bufs.take 2
+        = [[6, 8], [5, 9, 0, 5]]
+    ∧ (Impl.history (toyCfgFunc true) toyExt Policy.repaired p reads h).1.bufs.take 2
+        = [[6, 0], [5, 0, 0, 5]]
+    ∧ (Impl.history (toyCfgFunc true) toyExt Policy.snapshot p reads h).2
+        = (Impl.history (toyCfgFunc true) toyExt Policy.repaired p reads h).2 := by
+  decide
+
+/-- (a') The code as first read (before repair D151): in the mapping formalism with a linear func
+    list a preloaded `data_vector_mapper` — zeros at the func-list entries — is returned as THE data
+    vector, which differs from the preload-free data vector; the repaired code computes it. -/
+theorem snapshot_mapping_data_vector_wrong :
+    let p : Preloads Int := { dataVectorMapper := some 0 }
+    let h : Heap Int := ⟨[[6, 0]]⟩
+    p.Below h.size
+    ∧ (Impl.history (toyCfgFunc false) toyExt Policy.snapshot p [[Access.dataVector]] h).2
+        = [some [[6, 0]]]
+    ∧ (Impl.history (toyCfgFunc false) toyExt Policy.repaired p [[Access.dataVector]] h).2
+        = [some [[6, 8]]]
+    ∧ (Impl.history (toyCfgFunc false) toyExt Policy.repaired {} [[Access.dataVector]] h).2
+        = [some [[6, 8]]] := by
+  decide
+
+/-! ### non-vacuity: the hypotheses of (a), (c) are satisfiable with several slots filled -/
+
+/-- slots filled with what `toyExt` computes for `toyCfg` in the mapping formalism -/
+def toySlots : Slots Int :=
+  { operatedMappingMatrix := some [3, 4], curvatureMatrix := some [9, 12],
+    regularizationMatrix := some [1, 1], logDetRegularizationMatrixTerm := some 2,
+    dataVectorMapper := some [6, 0], wTilde := some [5] }
+
+example : Consistent toyCfg { toyExt with dvmMapping := [6, 8] } false
+    { toySlots with dataVectorMapper := some [6, 8] } := by
+  constructor <;> intro v hv <;> simp [toySlots] at hv <;> subst hv <;> decide
+
+example : Routes toyCfg { toyExt with dvmMapping := [6, 8] } := by
+  constructor
+  · decide
+  · decide
+  · intro _; decide
+
+/-- a kernel record on which the two formalisms agree (diagonal of the w-tilde table = Fᵀ F of the
+    mapping formalism, etc.) -/
+def toyExtAgree : Ext Int :=
+  { toyExt with dvW := [6, 8], dvmMapping := [6, 8], diagOfWT := fun _ => [9, 12] }
+
+example : FormalismsAgree toyCfg toyExtAgree := by
+  constructor
+  · decide
+  · decide
+  · intro l s; rfl
+  · decide
+
+/-- and the conclusion is a non-trivial statement there: a history with four slots filled and the
+    flag forcing the w-tilde formalism reports the values of the preload-free mapping inversion. -/
+example :
+    let p : Preloads Int :=
+      { curvatureMatrix := some 0, regularizationMatrix := some 1, wTilde := some 2,
+        useWTilde := some true, logDetRegularizationMatrixTerm := some 2 }
+    let h : Heap Int := ⟨[[9, 12], [1, 1], [5]]⟩
+    let c : Cfg Int := { toyCfg with settingsUseWTilde := true }
+    let reads := [Access.curvatureRegMatrix, Access.reconstruction, Access.dataVector,
+      Access.logDetRegularizationMatrixTerm]
+    (Impl.history c toyExtAgree Policy.repaired p [reads, reads] h).2
+      = (Impl.history { c with settingsUseWTilde := false } toyExtAgree Policy.repaired {}
+          [reads, reads] h).2
+    ∧ (Impl.history c toyExtAgree Policy.repaired p [reads] h).2
+      = [some [[10, 13], [-4, -5], [6, 8], [2]]] := by
+  decide
 
 end C15
